@@ -6,9 +6,11 @@ src=/tmp/seed-$p; T1=A; T2=B
 if [ "${ROUND:-1}" = "2" ]; then src=/tmp/seed2-$p; T1=C; T2=D; fi
 if [ "${ROUND:-1}" = "3" ]; then src=/tmp/seed3-$p; T1=E; T2=F; fi
 if [ "${ROUND:-1}" = "4" ]; then src=/tmp/seed4-$p; T1=G; T2=H; fi
+if [ "${ROUND:-1}" = "5" ]; then src=/tmp/seed5-$p; T1=I; T2=J; fi
 for L in A B; do
   if [ $L = A ]; then T=$T1; else T=$T2; fi
-  d=/verif/seeded/${p}_$T; mkdir -p $d; cp $src/_seed/$L/patch.diff $src/_seed/$L/demo.py $src/_seed/$L/notes.md $d/
+  [ -f $src/_seed/$L/patch.diff ] && [ -f $src/_seed/$L/demo.py ] || continue   # a round may deliver only A
+  d=/verif/seeded/${p}_$T; mkdir -p $d; touch $src/_seed/$L/notes.md; cp $src/_seed/$L/patch.diff $src/_seed/$L/demo.py $src/_seed/$L/notes.md $d/
   if grep -q '"\.\.", "\.\.", "tests"' $d/demo.py; then
     python3 - $d/demo.py <<'PY'
 import sys,re
@@ -21,7 +23,7 @@ if m:
 PY
   fi
 done
-/verif/tools/verify_seed.py /verif/seeded/${p}_$T1 $p "$tests" "$3" &
-/verif/tools/verify_seed.py /verif/seeded/${p}_$T2 $p "$tests" "$4" &
+[ -d /verif/seeded/${p}_$T1 ] && /verif/tools/verify_seed.py /verif/seeded/${p}_$T1 $p "$tests" "$3" &
+[ -d /verif/seeded/${p}_$T2 ] && /verif/tools/verify_seed.py /verif/seeded/${p}_$T2 $p "$tests" "$4" &
 wait
 git -C /repo worktree remove --force $src
